@@ -133,12 +133,24 @@ def dtype_ok(got, want):
     return np.dtype(got).newbyteorder('=') == np.dtype(want).newbyteorder('=')
 
 
+def _opkind(name):
+    after = ' after index' if ' after ' in name else ''
+    head = name.split(' after ')[0]
+    if head.startswith('read_data'):
+        return 'read_data' + after
+    if head.startswith('[') and ':' in head:
+        return 'slice' + after
+    if head.startswith('['):
+        return 'index'
+    return head + after
+
+
 def check_channel_dtype(rec, ch, tf, mode, raw_ts, is_ts, where):
     want = ch.dtype
     n = len(ch)
     nviol = [0]
 
-    def judge(name, fn, scalar=False, full=False):
+    def judge(name, fn, scalar=False, full=False, array=False):
         try:
             r = fn()
         except Exception as e:      # noqa
@@ -146,6 +158,11 @@ def check_channel_dtype(rec, ch, tf, mode, raw_ts, is_ts, where):
             rec.label('raised:' + type(e).__name__)
             return
         rec.stat('reads_checked')
+        if array and not hasattr(r, 'dtype') and not (is_ts and raw_ts):
+            # full reads, windows and slices are documented (and observed) to return NumPy arrays
+            rec.violation('container:%s:%s' % (mode, _opkind(name)), '%s %s returned a %s, not an array of channel.dtype %s' % (
+                where, name, type(r).__name__, want))
+            return
         items = r if isinstance(r, list) else [r]
         for x in items:
             if is_ts and raw_ts:
@@ -165,24 +182,32 @@ def check_channel_dtype(rec, ch, tf, mode, raw_ts, is_ts, where):
             if len(a.shape) and a.shape[0] == 0:
                 rec.label('empty_result')
             if not dtype_ok(a.dtype, want):
-                rec.violation('dtype:%s:%s' % (mode, name.split('(')[0]), '%s %s has dtype %s (%d values) but channel.dtype is %s' % (
+                rec.violation('dtype:%s:%s' % (mode, _opkind(name)), '%s %s has dtype %s (%d values) but channel.dtype is %s' % (
                     where, name, a.dtype, a.size, want))
                 return
         if full and not isinstance(r, list) and len(r) != n:
             rec.violation('len:' + mode, '%s %s has %d elements, len(channel) = %d' % (where, name, len(r), n))
 
-    judge('[:]', lambda: ch[:], full=True)
-    judge('read_data()', lambda: ch.read_data(), full=True)
+    judge('[:]', lambda: ch[:], full=True, array=True)
+    judge('read_data()', lambda: ch.read_data(), full=True, array=True)
     if mode == 'eager':
-        judge('.data', lambda: ch.data, full=True)
-    for (o, l) in [(0, 0), (0, 1), (1, 2), (n, 1), (n + 1, 0), (max(n - 1, 0), 5), (0, None), (2, None)]:
-        judge('read_data(%r,%r)' % (o, l), lambda: ch.read_data(o, l))
-    for s in [slice(0, 0), slice(1, 1), slice(None, None, 2), slice(None, None, -1), slice(1, None), slice(-2, None),
-              slice(n, None), slice(3, 1), slice(None, 1, -1)]:
-        judge('[%r:%r:%r]' % (s.start, s.stop, s.step), lambda: ch[s])
+        judge('.data', lambda: ch.data, full=True, array=True)
+    windows = [(0, 0), (0, 1), (1, 2), (n, 1), (n + 1, 0), (max(n - 1, 0), 5), (0, None), (2, None)]
+    slices = [slice(0, 0), slice(1, 1), slice(None, None, 2), slice(None, None, -1), slice(1, None), slice(-2, None),
+              slice(n, None), slice(3, 1), slice(None, 1, -1), slice(0, 1), slice(0, 2), slice(1, 2), slice(-1, None)]
+    for (o, l) in windows:
+        judge('read_data(%r,%r)' % (o, l), lambda: ch.read_data(o, l), array=True)
+    for s in slices:
+        judge('[%r:%r:%r]' % (s.start, s.stop, s.step), lambda: ch[s], array=True)
     if n:
-        judge('[0]', lambda: ch[0], scalar=True)
-        judge('[-1]', lambda: ch[-1], scalar=True)
+        # an integer index leaves a cached chunk behind: the same windows and slices are judged again right after each one
+        for i in sorted({0, -1, n // 2}):
+            judge('[%d]' % i, lambda: ch[i], scalar=True)
+            for (o, l) in windows:
+                judge('read_data(%r,%r) after [%d]' % (o, l, i), lambda: ch.read_data(o, l), array=True)
+            for s in slices:
+                judge('[%r:%r:%r] after [%d]' % (s.start, s.stop, s.step, i), lambda: ch[s], array=True)
+            judge('[:] after [%d]' % i, lambda: ch[:], full=True, array=True)
         judge('iteration', lambda: list(ch)[:3], scalar=True)
     if mode == 'lazy':
         judge('channel.data_chunks()', lambda: [c[:] for c in ch.data_chunks()])
